@@ -850,7 +850,7 @@ def _words_le(words):
 
 zuc_case = st.fixed_dictionaries({"kpat": st.sampled_from([0, 0, 0, 1, 2]), "seed": st.integers(0, 1 << 32), "pat": st.integers(0, 3),
                                   "nwords": st.integers(0, 80), "n": len_strategy(512, 1500, blk_=4), "cuts": cut_strategy,
-                                  "nbits": st.one_of(st.integers(1, 300), st.integers(1, 4000), st.sampled_from([1, 7, 8, 9, 31, 32, 33, 63, 64, 65, 193, 577, 800])),
+                                  "nbits": st.one_of(st.integers(0, 300), st.integers(1, 4000), st.sampled_from([0, 1, 7, 8, 9, 31, 32, 33, 63, 64, 65, 193, 577, 800])),
                                   "count": st.integers(0, 0xFFFFFFFF), "bearer": st.integers(0, 31), "dir": st.integers(0, 1),
                                   "macbits": st.sampled_from([32, 64, 128])})
 
